@@ -1,5 +1,6 @@
 use crate::ctx::Shard;
 
+pub mod c01;
 pub mod c04;
 pub mod c06;
 pub mod c07;
@@ -12,6 +13,7 @@ pub mod c19;
 
 pub fn dispatch(engine: &str, sh: &mut Shard) -> bool {
     match engine {
+        "c01" => c01::run(sh),
         "c04" => c04::run(sh),
         "c06" => c06::run(sh),
         "c07" => c07::run(sh),
